@@ -772,6 +772,8 @@ def Watch(inp, tab, ev):
     sub = [int.from_bytes(bytes(i), "big") for i in inp["sub"]]
     ver = int.from_bytes(bytes(inp["version"]), "big")
     vnet = {v: k[1] for k, v in W.VERSIONS.items()}.get(ver)
+    if inp.get("route") == "wallet":
+        vnet = inp["root"]["net"]
     rroot = ref_node(tab, inp["root"])
     rx = W.derive(tab, rroot, export)
     if rx is not None and vnet is not None:
@@ -784,8 +786,12 @@ def Watch(inp, tab, ev):
                 W.ref_addr(tab, k, rn.K, vnet)
 
     def go():
-        x = py_node(inp["root"]).derive_path(export)
-        s = x.extended_public_key(version=ver)
+        root = py_node(inp["root"])
+        x = root.derive_path(export)
+        if inp.get("route") == "wallet":
+            s = PaperWallet(master=root, testnet=root.testnet).node_extended_keys(x)["pub"]
+        else:
+            s = x.extended_public_key(version=ver)
         wl = PaperWallet.from_extended_key(s)
         n = wl.master.derive_path(sub)
         out = {"net": "test" if wl.testnet else "main", "watch_only": bool(wl.watch_only), "has_bip85": wl.bip85 is not None,
@@ -1056,3 +1062,17 @@ def Paranoia(inp, tab, ev):
     ev.setdefault("full", [])
     ev.setdefault("filt", [])
     ev["res"] = res_of(ok, v)
+
+
+@act
+def VersionParse(inp, tab, ev):
+    from btc_hd_wallet.wallet_utils import Version, Key, Bip
+    v = int.from_bytes(bytes(inp), "big")
+
+    def go():
+        ver = Version.parse(version_int=v)
+        bip = {Bip.BIP44.value: "bip44", Bip.BIP49.value: "bip49", Bip.BIP84.value: "bip84"}[ver.bip_type.value]
+        return {"prv": ver.key_type == Key.PRV, "net": "test" if ver.testnet else "main", "bip": bip,
+                "back": B(int(ver).to_bytes(4, "big"))}
+    ok, r = call(go)
+    ev["res"] = res_of(ok, r)
